@@ -19,6 +19,8 @@
 package storage
 
 import (
+	"context"
+	"errors"
 	"strings"
 	"sync"
 	"time"
@@ -61,6 +63,33 @@ func (s MemcachedSessionDatabase) Close() {
 	if s.client != nil {
 		_ = s.client.Close()
 	}
+}
+
+var _ atomicSessionDatabase = MemcachedSessionDatabase{}
+
+// getAndDelete reads the entry and then deletes it. Memcached has no command that does both, but its delete reports whether
+// it removed an entry: of all node processes that read the value, only the one whose delete removed the entry gets it.
+func (s MemcachedSessionDatabase) getAndDelete(_ context.Context, fullKey string) ([]byte, error) {
+	item, err := s.client.Get(fullKey)
+	if err == nil {
+		err = s.client.Delete(fullKey)
+	}
+	if err != nil {
+		if errors.Is(err, memcache.ErrCacheMiss) {
+			return nil, ErrNotFound
+		}
+		return nil, err
+	}
+	return item.Value, nil
+}
+
+// putIfAbsent stores the value with the add command, which only stores the value if the server holds no entry for the key.
+func (s MemcachedSessionDatabase) putIfAbsent(_ context.Context, fullKey string, value []byte, ttl time.Duration) (bool, error) {
+	err := s.client.Add(&memcache.Item{Key: fullKey, Value: value, Expiration: int32(ttl.Seconds())})
+	if errors.Is(err, memcache.ErrNotStored) {
+		return false, nil
+	}
+	return err == nil, err
 }
 
 func (s MemcachedSessionDatabase) getFullKey(prefixes []string, key string) string {
